@@ -15,6 +15,8 @@ checks = {
  "C08": dict(engine="choice", text="the claims-sets of C01 driven through the seven validating gates; gate fails iff Validate() fails, nothing emitted/attached on failure, valid path equals the non-validating sibling", note="trusted: Validate() as the statement's oracle (its own correctness is C01)", technique=CHOICE),
  "C19": dict(engine="bfs", text="explicit-state BFS over all histories of 27 operations (attach, sign/validate-and-sign with 2 good and 5 faulty signers, 7 decode inputs, out-of-band claim replacement) on one real Evidence, to the fixpoint of the canonical state space, plus all undeduplicated sequences to depth 3 (4); C19's invariants checked in every state", note="trusted: canonical key (argued in DESIGN.md 5 C19, cross-checked by the differential oracle and the undeduplicated run), verif hook VerifMessage, independent rawVerify", technique="explicit-state breadth-first search over operation histories on the real object (state = history, canonical-key deduplication, fixpoint)"),
  "C20": dict(engine="choice", text="envelopes assembled by the independent encoder (tag x 4 element classes x array shape x trailing bytes, <=3/4 deviations) and the TF-M vectors: acceptance must imply a strict tagged COSE_Sign1 whose payload is a CBOR map", note="trusted: mcbor; one-directional oracle as stated; open encodings carry no verdict", technique=CHOICE),
+ "C11": dict(engine="bfs", text="(i) every setter x all lengths 0..80 / the reference neighbourhood / lifecycle range ends on a fresh and a populated claims-set; (ii) explicit-state BFS over histories of 30 setter operations per profile on the real claims-set (depth 5 quick; fixpoint of ~26k canonical states and 1.5M transitions thorough): setter ok <=> refmodel, exact getter, all-or-nothing, complete => validates, encoding = canonical build of the final values", note="trusted: refmodel acceptance rules; canonical key = hash of getters + encodings read from the real object", technique="explicit-state breadth-first search over setter histories on the real object (canonical-key deduplication, fixpoint) + exhaustive enumeration of single calls"),
+ "C13": dict(engine="choice", text="each claim x each way of being wrong alone (exact class from getter, setter, Validate) and in pairs (class of some offending claim) on 3 constructions; setters over all lengths / all 65536 lifecycle values; FilterError over the full product of 17 leaves x <=3 wrappers (2652 error trees x 3 values) with the expected answer computed from the construction tree", note="trusted: class table from the statement (refmodel.Check)", technique=CHOICE),
  "C14": dict(engine="choice", text="complete enumeration of all 65536 lifecycle values (and all 65536 state values) on the real code against a 7-row reference table; nothing is sampled", note="trusted: the reference table in props/c14.go, the Go toolchain", technique="exhaustive enumeration of the input space (explicit-state, full product)"),
 }
 pending = {}
